@@ -567,7 +567,7 @@ fn scenarios(thorough: bool) -> Vec<(Scenario, Vec<usize>)> {
                 add(1, 1, bch, iz, 1, script, Inject::None, vec![4], 0);
                 add(1, 2, bch, iz, 1, script, Inject::None, vec![4], 0);
                 if script < 2 || thorough {
-                    let b = if thorough && script < 2 { 4 } else { 3 };
+                    let b = if thorough && script < 2 { 4 } else if thorough || script == 0 { 3 } else { 2 };
                     add(2, 1, bch, iz, 1, script, Inject::None, vec![b], 0);
                     add(2, 2, bch, iz, 1, script, Inject::None, vec![b], 0);
                 } else {
